@@ -22,6 +22,18 @@ var interpExternal = map[string]bool{
 	"github.com/ory/x/stringslice": false,
 	"slices":                       true,
 	"maps":                         true,
+	// built (bodies available) so that the functions listed in interpFuncs can be interpreted
+	"github.com/go-jose/go-jose/v3/jwt": false,
+}
+
+// interpFuncs: simple pure-Go functions of external packages that are executed from their SSA
+// instead of being modelled (an intrinsic with the same name takes precedence).
+var interpFuncs = map[string]bool{
+	"(github.com/go-jose/go-jose/v3/jwt.Claims).Validate":           true,
+	"(github.com/go-jose/go-jose/v3/jwt.Claims).ValidateWithLeeway": true,
+	"(*github.com/go-jose/go-jose/v3/jwt.NumericDate).Time":         true,
+	"(github.com/go-jose/go-jose/v3/jwt.Audience).Contains":         true,
+	"github.com/go-jose/go-jose/v3/jwt.NewNumericDate":              true,
 }
 
 type Program struct {
@@ -183,6 +195,9 @@ func (p *Program) isInterpreted(fn *ssa.Function) bool {
 		return true
 	}
 	if on, ok := interpExternal[path]; ok && on {
+		return true
+	}
+	if interpFuncs[fn.String()] {
 		return true
 	}
 	return false
